@@ -61,7 +61,7 @@ P = {
          "For random shapes and corpus types within the statement's restrictions, to_stdvec_dyn must equal the static bytes and from_slice_dyn must equal serde_json::to_value; names that differ only in case or in a raw-identifier prefix, nesting to depth 300. A lean workload is also interpreted by Miri for a 32-bit target (i686; stage miri32), where length prefixes are 32-bit varints. (thorough: pointer-sized integers inside the target range)",
          "serde_json's own Serializer is trusted as the JSON reference."),
  "C18": ("exploration", "4 C18", "totality monitor (catch_unwind, breadcrumbs, counting allocator) over random schemas x bytes x JSON",
-         "No panic/abort, allocation bound, and encode->decode->encode fixpoint are monitored for random schemas with hostile bytes and type-correct/near-miss/unrelated JSON (near-miss includes numbers as decimal strings and respelt object keys). A lean workload is also interpreted by Miri for a 32-bit target (i686; stage miri32), where length prefixes are 32-bit varints. (thorough) Nodes with 63..5000 members.",
+         "No panic/abort, allocation bound, and encode->decode->encode fixpoint are monitored for random schemas with hostile bytes and type-correct/near-miss/unrelated JSON (near-miss includes numbers as decimal strings, numbers spelt as text in 34 other ways - special floats, signs, padding, radix -, respelt object keys, and objects that hold one key twice under two spellings; a lane of maps of every key kind and of every scalar kind x number spellings). A lean workload is also interpreted by Miri for a 32-bit target (i686; stage miri32), where length prefixes are 32-bit varints. (thorough) Nodes with 63..5000 members.",
          "Known design limitations are listed in known_findings.json and still reported as KNOWN-FINDING."),
  "C19": ("exploration", "4 C19", "totality + set-equality monitor for schema inspection helpers",
          "to_pseudocode/Display/all_used_types under catch_unwind for random trees incl. Usize/Isize/Schema; the collected set is compared with an independent traversal; renderings must mention names; wide tuples (7..40 same-kind elements), path-like and case-variant names; is_prim totality.",
@@ -114,7 +114,7 @@ def main():
         ],
         "checks": checks,
         "not_applicable": [{"property_id": pid, "reason": REASON_NOT_BUILT} for pid in sorted(P) if pid not in BUILT],
-        "notes": "Technique family: runtime monitoring and sanitizers. Every check runs its workload on two build profiles (debug assertions + overflow checks on; plain release). Verdicts are three-valued (exit 0 held / 1 violation / 2 inconclusive). VERIF_SEED seeds all random choices; enumerated sub-spaces do not depend on it. VERIF_STAGES=native,plain,miri,miri32,miribe,asan,memcheck,eio04,alloc,cfgfuzz restricts stages (debugging aid). Confirmed property-breaking changes used to validate the checks are in /verif/seeded/ (180 changes from four waves of independent sub-agents plus 5 hand-written byte-order changes, all detected; DESIGN.md section 15). tools_coverage.sh reports which source lines of /repo the workloads execute (coverage/).",
+        "notes": "Technique family: runtime monitoring and sanitizers. Every check runs its workload on two build profiles (debug assertions + overflow checks on; plain release). Verdicts are three-valued (exit 0 held / 1 violation / 2 inconclusive). VERIF_SEED seeds all random choices; enumerated sub-spaces do not depend on it. VERIF_STAGES=native,plain,miri,miri32,miribe,asan,memcheck,eio04,alloc,cfgfuzz restricts stages (debugging aid). Confirmed property-breaking changes used to validate the checks are in /verif/seeded/ (202 changes from five waves of independent sub-agents plus 5 hand-written byte-order changes, all detected; DESIGN.md section 15). tools_coverage.sh reports which source lines of /repo the workloads execute (coverage/).",
     }
     with open("/verif/MANIFEST.json", "w") as f:
         json.dump(m, f, indent=1)
